@@ -306,9 +306,11 @@ func inductionFacts(z *zbCtx, fn *ssa.Function, pa *Path, all []*Path) []indFact
 			var backs []*Path
 			// the arrival that seeded the segment chain of this path at hdr
 			var seed *Path
+			family := -1 // the header segments started from the same arrival state
 			for q := pa; q != nil; q = q.PrePath {
 				if q.Start == hdr {
 					seed = q.PrePath
+					family = q.Pre
 					break
 				}
 			}
@@ -320,6 +322,9 @@ func inductionFacts(z *zbCtx, fn *ssa.Function, pa *Path, all []*Path) []indFact
 			for _, q := range all {
 				if q.End != hdr || !q.Back {
 					continue
+				}
+				if family >= 0 && q.Start == hdr && q.Pre != family {
+					continue // a back edge of another arrival state's iterations
 				}
 				v := q.Next[name]
 				if v == nil {
@@ -910,8 +915,47 @@ func checkC17(ctx *Ctx) *Result {
 	sort.Strings(rec)
 	allowed := map[string]bool{"(*origins.node).elems": true, "cfgerrors.All": true, "cfgerrors.All$1": true}
 	bad := ""
+	// recursion over the error tree: every recursive call is applied to an
+	// element of the []error that Unwrap() returned for (a value derived
+	// from) the caller's own argument — one level down a finite tree
+	overErrorTree := func(name string) bool {
+		for _, fn := range fns {
+			if funcName(fn) != name || fn.Pkg == nil || fn.Pkg.Pkg.Path() != pkgErrs {
+				continue
+			}
+			n := 0
+			for _, b := range fn.Blocks {
+				for _, ins := range b.Instrs {
+					c, ok := ins.(ssa.CallInstruction)
+					if !ok || c.Common().StaticCallee() != fn {
+						continue
+					}
+					n++
+					down := false
+					for _, a := range c.Common().Args {
+						ld, ok := a.(*ssa.UnOp)
+						if !ok {
+							continue
+						}
+						ia, ok := ld.X.(*ssa.IndexAddr)
+						if !ok {
+							continue
+						}
+						if src, ok := ia.X.(*ssa.Call); ok && src.Common().IsInvoke() && src.Common().Method.Name() == "Unwrap" {
+							down = true
+						}
+					}
+					if !down {
+						return false
+					}
+				}
+			}
+			return n > 0
+		}
+		return false
+	}
 	for _, f := range rec {
-		if !allowed[f] && !strings.HasPrefix(f, "cfgerrors.All") {
+		if !allowed[f] && !strings.HasPrefix(f, "cfgerrors.All") && !overErrorTree(f) {
 			bad = "unexpected recursion through " + f
 		}
 	}
